@@ -269,9 +269,14 @@ Definition oz (x : option Z) : Z := match x with Some z => z | None => 0 end.
 Definition enc_attr_ref (r : ref) (kind : str) : jv :=
   match kind with [] => JStr (ref_component r 0) | _ => JStr (ref_string r) end.
 
-Definition enc_targets (ts : list target) : jv :=
-  JArr (map (fun t => JObj (maybe (nonempty (t_kind t)) "contextKind" (JStr (t_kind t))
-                            ++ [(s "variation", jint (t_var t)); (s "values", jstr_list (t_values t))])) ts).
+Definition enc_target (t : target) : jv :=
+  JObj (maybe (nonempty (t_kind t)) "contextKind" (JStr (t_kind t))
+        ++ [(s "variation", jint (t_var t)); (s "values", jstr_list (t_values t))]).
+Definition enc_targets (ts : list target) : jv := JArr (map enc_target ts).
+Definition enc_wvar (w : wvar) : jv :=
+  JObj ([(s "variation", jint (wv_var w)); (s "weight", jint (wv_weight w))] ++
+        maybe (wv_untracked w) "untracked" (JBool true)).
+Definition enc_prereq (p : prereq) : jv := JObj [(s "key", JStr (pq_key p)); (s "variation", jint (pq_var p))].
 
 Definition enc_vorr_props (x : vorr) : list (str * jv) :=
   maybe (is_some (vr_var x)) "variation" (jint (oz (vr_var x))) ++
@@ -282,18 +287,21 @@ Definition enc_vorr_props (x : vorr) : list (str * jv) :=
     [(s "rollout", JObj (
        maybe (nonempty (ro_kind ro)) "kind" (JStr (ro_kind ro)) ++
        maybe (nonempty (ro_ctxkind ro)) "contextKind" (JStr (ro_ctxkind ro)) ++
-       [(s "variations", JArr (map (fun w => JObj (
-           [(s "variation", jint (wv_var w)); (s "weight", jint (wv_weight w))] ++
-           maybe (wv_untracked w) "untracked" (JBool true))) wvs))] ++
+       [(s "variations", JArr (map enc_wvar wvs))] ++
        maybe (is_some (ro_seed ro)) "seed" (jint (oz (ro_seed ro))) ++
        maybe (ref_defined (ro_bucket_by ro)) "bucketBy" (enc_attr_ref (ro_bucket_by ro) (ro_ctxkind ro))))]
   end.
 
-Definition enc_clauses (cs : list clause) : jv :=
-  JArr (map (fun c => JObj (
+Definition enc_clause (c : clause) : jv :=
+  JObj (
     maybe (nonempty (cl_kind c)) "contextKind" (JStr (cl_kind c)) ++
     [(s "attribute", if ref_defined (cl_attr c) then enc_attr_ref (cl_attr c) (cl_kind c) else JStr []);
-     (s "op", JStr (cl_op c)); (s "values", JArr (cl_values c)); (s "negate", JBool (cl_negate c))])) cs).
+     (s "op", JStr (cl_op c)); (s "values", JArr (cl_values c)); (s "negate", JBool (cl_negate c))]).
+Definition enc_clauses (cs : list clause) : jv := JArr (map enc_clause cs).
+
+Definition enc_rule (r : rule) : jv :=
+  JObj (enc_vorr_props (ru_vr r) ++ maybe (nonempty (ru_id r)) "id" (JStr (ru_id r)) ++
+        [(s "clauses", enc_clauses (ru_clauses r)); (s "trackEvents", JBool (ru_track r))]).
 
 Definition enc_opt_int (x : option Z) : jv := match x with Some z => jint z | None => JNull end.
 
@@ -301,11 +309,9 @@ Definition encode_flag (f : flag) : jv :=
   let m := f_meta f in
   JObj (
     [(s "key", JStr (f_key f)); (s "on", JBool (f_on f));
-     (s "prerequisites", JArr (map (fun p => JObj [(s "key", JStr (pq_key p)); (s "variation", jint (pq_var p))]) (f_prereqs f)));
+     (s "prerequisites", JArr (map enc_prereq (f_prereqs f)));
      (s "targets", enc_targets (f_targets f)); (s "contextTargets", enc_targets (f_ctargets f));
-     (s "rules", JArr (map (fun r => JObj (
-         enc_vorr_props (ru_vr r) ++ maybe (nonempty (ru_id r)) "id" (JStr (ru_id r)) ++
-         [(s "clauses", enc_clauses (ru_clauses r)); (s "trackEvents", JBool (ru_track r))])) (f_rules f)));
+     (s "rules", JArr (map enc_rule (f_rules f)));
      (s "fallthrough", JObj (enc_vorr_props (f_fallthrough f)));
      (s "offVariation", enc_opt_int (f_off f));
      (s "variations", JArr (f_vars f))] ++
@@ -322,20 +328,21 @@ Definition encode_flag (f : flag) : jv :=
     maybe (is_some (fm_sampling m)) "samplingRatio" (jint (oz (fm_sampling m))) ++
     maybe (f_exclude f) "excludeFromSummaries" (JBool true)).
 
-Definition enc_segtargets (ts : list segtarget) : jv :=
-  JArr (map (fun t => JObj (maybe (nonempty (st_kind t)) "contextKind" (JStr (st_kind t))
-                            ++ [(s "values", jstr_list (st_values t))])) ts).
+Definition enc_segtarget (t : segtarget) : jv :=
+  JObj (maybe (nonempty (st_kind t)) "contextKind" (JStr (st_kind t)) ++ [(s "values", jstr_list (st_values t))]).
+Definition enc_segtargets (ts : list segtarget) : jv := JArr (map enc_segtarget ts).
+Definition enc_segrule (r : segrule) : jv :=
+  JObj ([(s "id", JStr (sr_id r)); (s "clauses", enc_clauses (sr_clauses r))] ++
+        maybe (is_some (sr_weight r)) "weight" (jint (oz (sr_weight r))) ++
+        maybe (ref_defined (sr_bucket_by r)) "bucketBy" (enc_attr_ref (sr_bucket_by r) (sr_kind r)) ++
+        maybe (nonempty (sr_kind r)) "rolloutContextKind" (JStr (sr_kind r))).
 
 Definition encode_segment (sg : segment) : jv :=
   JObj (
     [(s "key", JStr (sg_key sg)); (s "included", jstr_list (sg_included sg)); (s "excluded", jstr_list (sg_excluded sg));
      (s "includedContexts", enc_segtargets (sg_inc_ctx sg)); (s "excludedContexts", enc_segtargets (sg_exc_ctx sg));
      (s "salt", JStr (sg_salt sg));
-     (s "rules", JArr (map (fun r => JObj (
-         [(s "id", JStr (sr_id r)); (s "clauses", enc_clauses (sr_clauses r))] ++
-         maybe (is_some (sr_weight r)) "weight" (jint (oz (sr_weight r))) ++
-         maybe (ref_defined (sr_bucket_by r)) "bucketBy" (enc_attr_ref (sr_bucket_by r) (sr_kind r)) ++
-         maybe (nonempty (sr_kind r)) "rolloutContextKind" (JStr (sr_kind r)))) (sg_rules sg)))] ++
+     (s "rules", JArr (map enc_segrule (sg_rules sg)))] ++
     maybe (sg_unbounded sg) "unbounded" (JBool true) ++
     maybe (nonempty (sg_unb_kind sg)) "unboundedContextKind" (JStr (sg_unb_kind sg)) ++
     [(s "version", jint (sg_version sg)); (s "generation", enc_opt_int (sg_generation sg));
